@@ -615,6 +615,63 @@ def builtin_objects_pass(ctx):
                         return
 
 
+def far_end_pass(ctx):
+    """`eIsSet` false is the state of a feature that reads as its default — also for the end of a bidirectional reference
+    that was written by the handshake, not by the caller: after every way of pairing two objects (assignment from either
+    side, append / insert / extend / add on a many-valued side, constructor keyword, eSet), an end that reports eIsSet false
+    reads None / an empty collection; un-pairing again leaves both ends reading their default"""
+    from pyecore import ecore as E
+    shapes = [('one-one', 1, 1), ('many-one', -1, 1), ('one-many', 1, -1), ('many-many', -1, -1), ('self', 1, 1)]
+    for shape, up_a, up_b in shapes:
+        for cont in (False, True):
+            if cont and shape in ('self', 'many-many', 'one-many'):
+                continue
+            A, B = E.EClass('A'), E.EClass('B')
+            if shape == 'self':
+                B = A
+            ra = E.EReference('fwd', B, upper=up_a, containment=cont)
+            rb = E.EReference('back', A, upper=up_b)
+            A.eStructuralFeatures.append(ra); B.eStructuralFeatures.append(rb)
+            rb.eOpposite = ra
+            ways = ['assign', 'eset', 'ctor'] if up_a == 1 else ['append', 'insert', 'extend', 'add', 'iadd', 'assign-list']
+            for way in ways:
+                a, b = A(), B()
+                try:
+                    if way == 'assign':
+                        a.fwd = b
+                    elif way == 'eset':
+                        a.eSet('fwd', b)
+                    elif way == 'ctor':
+                        a = A(fwd=b)
+                    elif way == 'append':
+                        a.fwd.append(b)
+                    elif way == 'insert':
+                        a.fwd.insert(0, b)
+                    elif way == 'extend':
+                        a.fwd.extend([b])
+                    elif way == 'add':
+                        a.fwd.add(b) if hasattr(a.fwd, 'add') else a.fwd.append(b)
+                    elif way == 'iadd':
+                        c = a.fwd; c += [b]
+                    else:
+                        a.fwd = [b]
+                except Exception as e:
+                    ctx.count(f'far-end/{shape}/{way}/raised-{type(e).__name__}')
+                    continue
+                ctx.evaluations += 1
+                ctx.nontriv(('far-end', shape, cont, way))
+                ctx.count(f'far-end/{shape}')
+                for who, o, f in (('the end written by the caller', a, ra), ('the other end', b, rb)):
+                    v = o.eGet(f)
+                    empty = (len(v) == 0) if f.many else (v is None)
+                    if not o.eIsSet(f) and not empty:
+                        ctx.violate({'clause': 'unset-reads-non-default', 'feature': 'reference-end'},
+                                    f'{shape}{" containment" if cont else ""}, paired by {way}: {who} ({f.name}) reports eIsSet false but reads '
+                                    f'{"its partner" if not f.many else "a collection of " + str(len(v))} instead of its default',
+                                    {'shape': shape, 'way': way, 'containment': cont})
+                        return
+
+
 def run(ctx):
     common.use_repo()
     n = 500 if ctx.quick() else 8000
@@ -635,6 +692,7 @@ def run(ctx):
     readd_pass(ctx)
     literal_default_pass(ctx)
     builtin_objects_pass(ctx)
+    far_end_pass(ctx)
     out = common.run_driver('dflt', model_in)
     bad = set()
     for line, exp, got in zip(model_in, expect, out):
@@ -664,6 +722,13 @@ def search(ctx):
 def replay(ctx, data):
     common.use_repo()
     r = data['replay']
+    if 'history' not in r:                      # reported by one of the fixed passes: run them again
+        c2 = common.Ctx('C15', data['tier'], data['seed'])
+        for p in (bulk_reject_pass, single_reject_pass, retype_pass, readd_pass, literal_default_pass, builtin_objects_pass, far_end_pass):
+            p(c2)
+        for v in c2.violations[:5]:
+            print('  ', v['what'])
+        return 1 if c2.violations else 0
     rng = common.sub_rng(data['seed'], 'C15', r['history'], r['with_shared'])
     decls = declarations(rng, r['with_shared'])
     impl = Impl(decls, r['objects'])
